@@ -107,7 +107,12 @@ def run(tier, seed):
                 arg = spell(rnd, a, b)
                 ast_p = ('nth', kind, a, b, of)
             pre = rnd.choice(['', 'li', '*', '.x'])
-            pat = f'{pre}:{rnd.choice([kind, kind.upper()]) if rnd.random() < 0.1 else kind}({arg}{ofs})'
+            kname = rnd.choice([kind, kind.upper()]) if rnd.random() < 0.1 else kind
+            if rnd.random() < 0.15:
+                # the name of the pseudo-class is an identifier: any of its letters may be written as an escape
+                j_ = rnd.choice([i_ for i_, ch_ in enumerate(kname) if ch_ != '-'])
+                kname = kname[:j_] + ('\\%x ' % ord(kname[j_])) + kname[j_ + 1:]
+            pat = f'{pre}:{kname}({arg}{ofs})'
             cp = {'pseudos': [ast_p]}
             if rnd.random() < 0.3:
                 # two (or three) positional pseudo-classes in one compound: a conjunction, each counted from its own start
